@@ -3,21 +3,16 @@
    leFloatAndInt, equalIntAndFloat) against the order of the real numbers,
    for ALL int64 n and ALL binary64 f.
 
-   Result: ltFloatAndInt, leIntAndFloat and equalIntAndFloat are exact
-   everywhere; ltIntAndFloat and leFloatAndInt are exact except on the defect
-   class  cmp_defect n f  =  (f == 2^63 and n >= 2^63-512), where they answer
-   as if n were 2^63 (refuted by the witness n = maxinteger, f = 2^63). *)
+   Result (after the repair of comp.go: range test f >= 2^63 before int64(f)
+   in ltIntAndFloat and leFloatAndInt): all five helpers are exact everywhere.
+   Without the range test (the *_core functions = the code before the repair)
+   ltIntAndFloat and leFloatAndInt answer as if n were 2^63 when f = 2^63 and
+   n >= 2^63-512 (core_alone_refuted). *)
 From Coq Require Import ZArith Reals Lia Lra Psatz Bool List.
 From Flocq Require Import Core.Core IEEE754.BinarySingleNaN.
 From GV Require Import Base.W64 Base.W64Lemmas Base.F64 Base.F64Lemmas Num.Model Num.Spec.
 Import ListNotations.
 Open Scope Z_scope.
-
-(* 2^63 as a float *)
-Definition f2p63 : f64 := of_mant_exp 1 63 false.
-
-(* the defect class, a boolean predicate on the operands *)
-Definition cmp_defect (n : Z) (f : f64) : bool := (2 ^ 63 - 512 <=? n) && feq f f2p63.
 
 Lemma f2p63_correct : B2R f2p63 = IZR (2 ^ 63) /\ is_finite f2p63 = true.
 Proof.
@@ -28,43 +23,6 @@ Proof.
   rewrite Rlt_bool_true.
   - intros (A & B & _). split; assumption.
   - rewrite Rabs_pos_eq by (apply IZR_le; lia). rewrite <- bpow63. apply bpow_lt. lia.
-Qed.
-
-(* the 511 integers strictly between 2^63-1024 and 2^63-512 round below 2^63
-   (finite domain, by evaluation) *)
-Definition below_mid : list Z := map (fun i => 2 ^ 63 - 1024 + Z.of_nat i) (seq 1 511).
-Lemma below_mid_all : forallb (fun n => flt (of_int n) f2p63) below_mid = true.
-Proof. vm_compute. reflexivity. Qed.
-
-Lemma below_mid_in n : 2 ^ 63 - 1024 < n < 2 ^ 63 - 512 -> In n below_mid.
-Proof.
-  intros H. unfold below_mid. apply in_map_iff. exists (Z.to_nat (n - (2 ^ 63 - 1024))).
-  split. rewrite Z2Nat.id by lia. ring.
-  apply in_seq. split.
-  - change 1%nat with (Z.to_nat 1). apply Z2Nat.inj_le; lia.
-  - change (1 + 511)%nat with (Z.to_nat 512). apply Z2Nat.inj_lt; lia.
-Qed.
-
-Lemma format_2p63m1024 : generic_format radix2 fexp64 (IZR (2 ^ 63 - 1024)).
-Proof.
-  apply generic_format_FLT. exists (Float radix2 (2 ^ 53 - 1) 10).
-  - unfold F2R. simpl. rewrite <- mult_IZR. f_equal.
-  - simpl. lia.
-  - simpl. lia.
-Qed.
-
-(* n < 2^63 - 512  ->  float64(n) < 2^63 *)
-Lemma round_below_2p63 n : in64 n -> n < 2 ^ 63 - 512 -> (B2R (of_int n) < IZR (2 ^ 63))%R.
-Proof.
-  intros Hn L.
-  destruct (Z_le_gt_dec n (2 ^ 63 - 1024)) as [Le|Gt].
-  - apply Rle_lt_trans with (IZR (2 ^ 63 - 1024)).
-    + apply of_int_le_bound. now apply in64_abs. apply format_2p63m1024. now apply IZR_le.
-    + apply IZR_lt. lia.
-  - pose proof below_mid_all as A. rewrite forallb_forall in A.
-    specialize (A n (below_mid_in n ltac:(lia))).
-    destruct f2p63_correct as [V Ffin].
-    apply flt_finite_iff in A; [|now apply of_int_finite|exact Ffin]. now rewrite V in A.
 Qed.
 
 Lemma of_int_le_2p63 n : in64 n -> (B2R (of_int n) <= IZR (2 ^ 63))%R.
@@ -81,14 +39,13 @@ Qed.
 Lemma small_format k : Z.abs k <= 2 ^ 52 -> generic_format radix2 fexp64 (IZR k).
 Proof. intros. apply small_int_format. lia. Qed.
 
-Lemma defect_false_cases n f : is_finite f = true -> cmp_defect n f = false ->
-  n < 2 ^ 63 - 512 \/ B2R f <> IZR (2 ^ 63).
+Lemma range_test (f : f64) : is_finite f = true ->
+  (fle f2p63 f = true -> (IZR (2 ^ 63) <= B2R f)%R) /\ (fle f2p63 f = false -> (B2R f < IZR (2 ^ 63))%R).
 Proof.
-  intros Ff D. unfold cmp_defect in D. apply andb_false_iff in D. destruct D as [D|D].
-  - left. apply Z.leb_gt in D. exact D.
-  - right. intro E. destruct f2p63_correct as [V Fin].
-    assert (feq f f2p63 = true). { apply feq_finite_iff; auto. now rewrite V. }
-    congruence.
+  intros Ff. destruct f2p63_correct as [V Fin]. split; intros H.
+  - apply fle_finite_iff in H; auto. now rewrite V in H.
+  - destruct (Rlt_or_le (B2R f) (IZR (2 ^ 63))) as [L|L]; [exact L|].
+    assert (fle f2p63 f = true) by (apply fle_finite_iff; auto; now rewrite V). congruence.
 Qed.
 
 Section Exact.
@@ -149,34 +106,34 @@ Proof.
   - split; [discriminate|]. intros E. exfalso. rewrite <- E in B. apply lt_IZR in B. unfold in64 in Hn. lia.
 Qed.
 
-Hypothesis ND : cmp_defect n f = false.
-
-Theorem ltIntAndFloat_exact_partial : ltIntAndFloat n f = true <-> (IZR n < B2R f)%R.
+Theorem ltIntAndFloat_exact : ltIntAndFloat n f = true <-> (IZR n < B2R f)%R.
 Proof.
-  unfold ltIntAndFloat. destruct (f2i_cases f Ff) as [R E Q|k Q Hk K1 K2|Q B|Q B]; rewrite Q.
-  - rewrite Z.ltb_lt. rewrite <- E. split. apply IZR_lt. apply lt_IZR.
-  - rewrite flt_finite_iff by assumption. apply frac_lt with (k := k); assumption.
-  - rewrite flt_finite_iff by assumption. pose proof (of_int_le_2p63 n Hn).
-    assert (IZR n < IZR (2 ^ 63))%R by (apply IZR_lt; unfold in64 in Hn; lia).
-    destruct (defect_false_cases n f Ff ND) as [S|S].
-    + pose proof (round_below_2p63 n Hn S). split; intros; lra.
-    + split; intros; lra.
-  - rewrite flt_finite_iff by assumption. pose proof (of_int_ge_m2p63 n Hn).
-    assert (IZR (- 2 ^ 63) <= IZR n)%R by (apply IZR_le; unfold in64 in Hn; lia). split; intros; lra.
+  unfold ltIntAndFloat. destruct (range_test f Ff) as [R1 R2].
+  assert (IZR n < IZR (2 ^ 63))%R by (apply IZR_lt; unfold in64 in Hn; lia).
+  destruct (fle f2p63 f).
+  - specialize (R1 eq_refl). split; intros; [lra|reflexivity].
+  - specialize (R2 eq_refl). unfold ltIntAndFloat_core.
+    destruct (f2i_cases f Ff) as [R E Q|k Q Hk K1 K2|Q B|Q B]; rewrite Q.
+    + rewrite Z.ltb_lt. rewrite <- E. split. apply IZR_lt. apply lt_IZR.
+    + rewrite flt_finite_iff by assumption. apply frac_lt with (k := k); assumption.
+    + lra.
+    + rewrite flt_finite_iff by assumption. pose proof (of_int_ge_m2p63 n Hn).
+      assert (IZR (- 2 ^ 63) <= IZR n)%R by (apply IZR_le; unfold in64 in Hn; lia). split; intros; lra.
 Qed.
 
-Theorem leFloatAndInt_exact_partial : leFloatAndInt f n = true <-> (B2R f <= IZR n)%R.
+Theorem leFloatAndInt_exact : leFloatAndInt f n = true <-> (B2R f <= IZR n)%R.
 Proof.
-  unfold leFloatAndInt. destruct (f2i_cases f Ff) as [R E Q|k Q Hk K1 K2|Q B|Q B]; rewrite Q.
-  - rewrite Z.leb_le. rewrite <- E. split. apply IZR_le. apply le_IZR.
-  - rewrite fle_finite_iff by assumption. apply frac_lt with (k := k); assumption.
-  - rewrite fle_finite_iff by assumption. pose proof (of_int_le_2p63 n Hn).
-    assert (IZR n < IZR (2 ^ 63))%R by (apply IZR_lt; unfold in64 in Hn; lia).
-    destruct (defect_false_cases n f Ff ND) as [S|S].
-    + pose proof (round_below_2p63 n Hn S). split; intros; lra.
-    + split; intros; lra.
-  - rewrite fle_finite_iff by assumption. pose proof (of_int_ge_m2p63 n Hn).
-    assert (IZR (- 2 ^ 63) <= IZR n)%R by (apply IZR_le; unfold in64 in Hn; lia). split; intros; lra.
+  unfold leFloatAndInt. destruct (range_test f Ff) as [R1 R2].
+  assert (IZR n < IZR (2 ^ 63))%R by (apply IZR_lt; unfold in64 in Hn; lia).
+  destruct (fle f2p63 f).
+  - specialize (R1 eq_refl). split; intros; [discriminate|lra].
+  - specialize (R2 eq_refl). unfold leFloatAndInt_core.
+    destruct (f2i_cases f Ff) as [R E Q|k Q Hk K1 K2|Q B|Q B]; rewrite Q.
+    + rewrite Z.leb_le. rewrite <- E. split. apply IZR_le. apply le_IZR.
+    + rewrite fle_finite_iff by assumption. apply frac_lt with (k := k); assumption.
+    + lra.
+    + rewrite fle_finite_iff by assumption. pose proof (of_int_ge_m2p63 n Hn).
+      assert (IZR (- 2 ^ 63) <= IZR n)%R by (apply IZR_le; unfold in64 in Hn; lia). split; intros; lra.
 Qed.
 End Exact.
 
@@ -184,29 +141,18 @@ End Exact.
 Lemma maxint_lt_2p63_real : (IZR maxint < B2R f2p63)%R.
 Proof. destruct f2p63_correct as [-> _]. apply IZR_lt. vm_compute. reflexivity. Qed.
 
-Theorem ltIntAndFloat_exact_refuted :
-  exists n f, in64 n /\ is_finite f = true /\ (IZR n < B2R f)%R /\ ltIntAndFloat n f = false.
+(* why the range test is needed: the code before the repair *)
+Theorem core_alone_refuted :
+  exists n f, in64 n /\ is_finite f = true /\ (IZR n < B2R f)%R /\
+    ltIntAndFloat_core n f = false /\ leFloatAndInt_core f n = true.
 Proof.
-  exists maxint, f2p63. split; [|split; [|split]].
+  exists maxint, f2p63. split; [|split; [|split; [|split]]].
   - unfold in64, maxint. lia.
   - apply f2p63_correct.
   - apply maxint_lt_2p63_real.
   - vm_compute. reflexivity.
-Qed.
-
-Theorem leFloatAndInt_exact_refuted :
-  exists n f, in64 n /\ is_finite f = true /\ ~ (B2R f <= IZR n)%R /\ leFloatAndInt f n = true.
-Proof.
-  exists maxint, f2p63. split; [|split; [|split]].
-  - unfold in64, maxint. lia.
-  - apply f2p63_correct.
-  - pose proof maxint_lt_2p63_real. lra.
   - vm_compute. reflexivity.
 Qed.
-
-(* the hypotheses of the partial theorems are satisfiable, also at 2^63 *)
-Example partial_hyps_sat : in64 5 /\ is_finite f2p63 = true /\ cmp_defect 5 f2p63 = false.
-Proof. split; [unfold in64; lia|split; [apply f2p63_correct|vm_compute; reflexivity]]. Qed.
 
 (* --- infinities and NaN ------------------------------------------------------ *)
 Lemma cmp_nonfinite n : in64 n ->
@@ -224,7 +170,8 @@ Lemma cmp_nonfinite n : in64 n ->
   equalIntAndFloat n fnan = false.
 Proof.
   intros Hn. pose proof (of_int_finite n Hn) as Fn.
-  unfold ltIntAndFloat, leIntAndFloat, ltFloatAndInt, leFloatAndInt, equalIntAndFloat.
+  unfold ltIntAndFloat, leIntAndFloat, ltFloatAndInt, leFloatAndInt, equalIntAndFloat, ltIntAndFloat_core, leFloatAndInt_core.
+  change (fle f2p63 (finf false)) with true. change (fle f2p63 (finf true)) with false. change (fle f2p63 fnan) with false.
   change (go_f2i (finf false)) with minint. change (go_f2i (finf true)) with minint.
   change (go_f2i fnan) with minint.
   assert (F0 : is_finite (of_int minint) = true) by (apply of_int_finite; apply in64_minint).
